@@ -18,8 +18,9 @@ func (s EllipsisType) Type() *Type {
 	return EllipsisTypeType
 }
 
+// Ellipsis is true, as any object which defines neither __bool__ nor __len__
 func (a EllipsisType) M__bool__() (Object, error) {
-	return False, nil
+	return True, nil
 }
 
 func (a EllipsisType) M__repr__() (Object, error) {
